@@ -219,7 +219,7 @@ func guard(f func()) (sig string) {
 
 func runC13(cfg *vc.Config, rep *vc.Report) {
 	ctx := context.Background()
-	cfg.Cases(3000, 30000, func(i int, r *vc.Rand) {
+	cfg.Cases(3000, 200000, func(i int, r *vc.Rand) {
 		n := vc.Pick(r, []int{1, 2, 3, 5, 10, 20, 40, 200})
 		if cfg.Tier == "quick" && n > 40 {
 			n = 40
